@@ -522,3 +522,73 @@ V(id='c07-convert-arg-drops-rounding', prop='C07', file='mpmath/ctx_mp_python.py
 V(id='c07-benign-threshold', prop='C07', file='mpmath/libmp/libmpf.py',
   old="    if abs(exp) > 400:", new="    if abs(exp) > 1000:",
   expect='silent')
+
+# ---------------------------------------------------------------- C14 -------
+V(id='c14-add-upper-floor', prop='C14', file='mpmath/libmp/libmpi.py',
+  old="    a = mpf_add(sa, ta, prec, round_floor)\n    b = mpf_add(sb, tb, prec, round_ceiling)",
+  new="    a = mpf_add(sa, ta, prec, round_floor)\n    b = mpf_add(sb, tb, prec, round_floor)",
+  expect='fire:C-R1:mpi_add')
+V(id='c14-sub-default-rounding', prop='C14', file='mpmath/libmp/libmpi.py',
+  old="    a = mpf_sub(sa, tb, prec, round_floor)", new="    a = mpf_sub(sa, tb, prec)",
+  expect='fire:C-R1:mpi_sub')
+V(id='c14-exp-swapped-modes', prop='C14', file='mpmath/libmp/libmpi.py',
+  old="    a = mpf_exp(sa, prec, round_floor)\n    b = mpf_exp(sb, prec, round_ceiling)",
+  new="    a = mpf_exp(sa, prec, round_ceiling)\n    b = mpf_exp(sb, prec, round_floor)",
+  expect='fire:C-R1:mpi_exp')
+V(id='c14-mul-general-nearest', prop='C14', file='mpmath/libmp/libmpi.py',
+  old="            a = mpf_pos(a, prec, round_floor)\n            b = mpf_pos(b, prec, round_ceiling)\n    return a, b\n\ndef mpi_square",
+  new="            a = mpf_pos(a, prec, round_nearest)\n            b = mpf_pos(b, prec, round_ceiling)\n    return a, b\n\ndef mpi_square",
+  expect='fire:C-R1:mpi_mul')
+V(id='c14-loggamma-neg-after-round', prop='C14', file='mpmath/libmp/gammazeta.py',
+  old="        if type == 3: return mpf_neg(mpf_log(mpf_abs(x), prec, negative_rnd[rnd]))",
+  new="        if type == 3: return mpf_neg(mpf_log(mpf_abs(x), prec, rnd))",
+  expect='fire:C-R5:mpf_gamma')
+V(id='c14-atan2-pi-direction', prop='C14', file='mpmath/libmp/libelefun.py',
+  old="            return mpf_neg(mpf_shift(mpf_pi(prec, negative_rnd[rnd]), -1))",
+  new="            return mpf_neg(mpf_shift(mpf_pi(prec, rnd), -1))",
+  expect='fire:C-R5:mpf_atan2')
+V(id='c14-finalize-inward', prop='C14', file='mpmath/libmp/libmpi.py',
+  old="        if bool(v[0]) == (rounding == round_floor):", new="        if bool(v[0]) != (rounding == round_floor):",
+  expect='fire:C-R4:finalize')
+V(id='c14-finalize-direction-swap', prop='C14', file='mpmath/libmp/libmpi.py',
+  old="    cb = finalize(cb, round_ceiling)", new="    cb = finalize(cb, round_floor)",
+  expect='fire:C-R4:mpi_cos_sin')
+V(id='c14-convert-upper-floor', prop='C14', file='mpmath/ctx_iv.py',
+  old="                b = convert_mpf_(b, ctx.prec, round_ceiling)", new="                b = convert_mpf_(b, ctx.prec, round_floor)",
+  expect='fire:C-R6:convert')
+V(id='c14-halfwidth-default', prop='C14', file='mpmath/libmp/libmpi.py',
+  old="    y = from_str(y, wp, round_ceiling)\n    assert", new="    y = from_str(y, wp)\n    assert",
+  expect='fire:C-R2:mpi_from_str_a_b')
+V(id='c14-pow-intermediate-rounded-wrong', prop='C14', file='mpmath/libmp/libmpi.py',
+  old="    u = mpi_log(s, prec + 20)\n    v = mpi_mul(u, t, prec + 20)\n    return mpi_exp(v, prec)",
+  new="    u = mpi_log(s, prec + 20)\n    v = mpi_mul(u, t, prec + 20)\n    v = (v[1], v[0])\n    return mpi_exp(v, prec)",
+  expect='fire:C-R3:mpi_pow')
+V(id='c14-benign-more-guard', prop='C14', file='mpmath/libmp/libmpi.py',
+  old="    u = mpi_log(s, prec + 20)\n    v = mpi_mul(u, t, prec + 20)", new="    u = mpi_log(s, prec + 30)\n    v = mpi_mul(u, t, prec + 30)",
+  expect='silent')
+
+# ---------------------------------------------------------------- C15 -------
+V(id='c15-gamma-cross-direction', prop='C15', file='mpmath/libmp/libmpi.py',
+  old="        maxim = mpc_loggamma((a2,b2), wp, round_ceiling)\n\n    w =", new="        maxim = mpc_loggamma((a2,b2), wp, round_floor)\n\n    w =",
+  expect='fire:C-R3:mpci_gamma')
+V(id='c15-gamma-upper-half-direction', prop='C15', file='mpmath/libmp/libmpi.py',
+  old="        minre = mpc_loggamma((a1,b2), wp, round_floor)\n        maxre = mpc_loggamma((a2,b1), wp, round_ceiling)",
+  new="        minre = mpc_loggamma((a1,b2), wp, round_ceiling)\n        maxre = mpc_loggamma((a2,b1), wp, round_ceiling)",
+  expect='fire:C-R3:mpci_gamma')
+V(id='c15-cos-neg-dropped-swap', prop='C15', file='mpmath/libmp/libmpi.py',
+  old="    im = mpi_mul(s, sh, prec)\n    return re, mpi_neg(im)", new="    im = mpi_mul(s, sh, prec)\n    return re, (mpf_neg(im[0]), mpf_neg(im[1]))",
+  expect='fire:C-R1:mpci_cos')
+V(id='c15-mul-real-part-unrounded-swap', prop='C15', file='mpmath/libmp/libmpi.py',
+  old="    re = mpi_sub(r1,r2,prec)\n    i1 = mpi_mul(a,d)", new="    re = mpi_sub(r1,r2,prec)\n    re = (re[1], re[0])\n    i1 = mpi_mul(a,d)",
+  expect='fire:C-R1:mpci_mul')
+V(id='c15-rop-real-swapped', prop='C15', file='mpmath/ctx_iv.py',
+  old='        if hasattr(t, "_mpci_"): return g_complex(ctx, t._mpci_, (s._mpi_, mpi_zero))',
+  new='        if hasattr(t, "_mpci_"): return g_complex(ctx, (s._mpi_, mpi_zero), t._mpci_)',
+  expect='fire:C-R8:rop_real')
+V(id='c15-op-table-mismatch', prop='C15', file='mpmath/ctx_iv.py',
+  old="ivmpf.__div__, ivmpf.__rdiv__, ivmpc.__div__, ivmpc.__rdiv__ = _binary_op(mpi_div, mpci_div)",
+  new="ivmpf.__div__, ivmpf.__rdiv__, ivmpc.__div__, ivmpc.__rdiv__ = _binary_op(mpi_div, mpci_mul)",
+  expect='fire:C-R8:<module>')
+V(id='c15-benign-rename', prop='C15', file='mpmath/libmp/libmpi.py',
+  old="    re = mpi_sub(r1,r2,prec)\n    i1 = mpi_mul(a,d)", new="    real_part = mpi_sub(r1,r2,prec)\n    re = real_part\n    i1 = mpi_mul(a,d)",
+  expect='silent')
